@@ -127,6 +127,17 @@ def run(replay=None):
               'globally: no a\nglobally: no (c)', 'globally: no ()', 'globally: no (a or)', 'globally: no ((a or b))'):
         add('P1', P1, 'property', t)
         add('P1', P1, 'specification', t)
+    # (b'+) every property shape of the scoping families (references under indices under field accesses, quantifier hygiene,
+    # shared aliases): whatever the binding rule says about them, the outcome is an AST or a documented error, through the
+    # property and the specification parser alike
+    for fam in ('quant', 'disj'):
+        shp, r2 = grammar.enumerate_shapes(fam)
+        rep.add_tlc(r2)
+        for s in (shp if fam == 'quant' or thorough else shp[::7]):
+            text = ' '.join(render.substitute(s, lits=grammar.STD_LITS)[0])
+            add('P1', P1, 'property', text)
+            if fam == 'quant':
+                add('P1', P1, 'specification', '# id: s1\n' + text)
     # (b') annotation blocks: every sequence of up to 3 annotation keys (with repeats and an unknown key) before a property
     import itertools as _it
     keys = {'id': '# id: p1', 'title': '# title: "t"', 'description': '# description: "d"', 'unknown': '# foo: "x"',
